@@ -26,7 +26,7 @@ DEFAULT_PROFILE = dict(
     subscript_whole_array_results=True, raise_=True, nested_calls=True,
     persistent_arrays=True, name_pool="plain", zero_trip=True, negative_consts=True,
     dead_code=True, cond_in_call_args=True, bare_power=True, ne_operator=True,
-    pow_of_pow=True, loop_bound_vars=True, fresh_names=False, lookups=False, complex_vars=False, assign_all_state=False, time_advance=True, force_phases=None, extra_kinds=(), zero_arg_calls=True, builtin_set=None, yield_uvec_only=False, matmul_only=False, yield_call_free=False, minmax_loop_counter=True, builtin_kwargs=True, uvfn_boost=False, kw_reverse=True, triangular=True, recall=True, int_reassign=True, acc_loops=True, guarded_partial=True, split_calls=True, dt_change=True, surfaces=True,
+    pow_of_pow=True, loop_bound_vars=True, fresh_names=False, lookups=False, complex_vars=False, assign_all_state=False, time_advance=True, force_phases=None, extra_kinds=(), zero_arg_calls=True, builtin_set=None, yield_uvec_only=False, matmul_only=False, yield_call_free=False, minmax_loop_counter=True, builtin_kwargs=True, uvfn_boost=False, kw_reverse=True, triangular=True, recall=True, int_reassign=True, acc_loops=True, guarded_partial=True, split_calls=True, dt_change=True, surfaces=True, loop_vars=None,
     real_temps=None, uvec_temps=None, arr_temps=None, flag_temps=None, int_temps=None,
 )
 
@@ -84,6 +84,7 @@ class Gen:
         self.ARR_TEMPS = self.p["arr_temps"] or ARR_TEMPS
         self.FLAG_TEMPS = self.p["flag_temps"] or FLAG_TEMPS
         self.INT_TEMPS = self.p["int_temps"] or INT_TEMPS
+        self.LV = list(self.p["loop_vars"] or LOOP_VARS)
 
     # ---- small helpers
     def bcall(self, f, args):
@@ -511,7 +512,7 @@ class Gen:
 
     def loop_for(self, lo_hi_max):
         """Draw a loop header [ident, lo_tree, hi_tree] with known range inside [0, max]."""
-        lv = self.choice([l for l in LOOP_VARS if l not in self.loop_env])
+        lv = self.choice([l for l in self.LV if l not in self.loop_env])
         n = lo_hi_max
         kind = self.choice(["full", "full", "full", "part", "zero", "one"] if self.p["zero_trip"]
                            else ["full", "full", "part", "one"])
@@ -560,7 +561,7 @@ class Gen:
         self.lbound1.discard(name)
         typ = ["arr", n]
         # full initialisation loop a[i] <- expr(i)
-        lv = self.choice(LOOP_VARS)
+        lv = self.choice(self.LV)
         self.loop_env[lv] = (0, n)
         rhs = self.real_expr(1)
         del self.loop_env[lv]
@@ -607,7 +608,7 @@ class Gen:
         # looped write; index is an injective function of the loop variables, the assignee is
         # read only at the element being written (no loop-carried dependence)
         self.features.add("loop")
-        two = (n >= 2 and self.chance(30) and len(LOOP_VARS) >= 2) or force
+        two = ((n >= 2 and self.chance(30)) or force) and len(self.LV) >= 2
         if two:
             # a[j*w + i], i in [0,w), j in [0,h), w*h <= n
             w = self.draw(st.integers(1, n))
@@ -916,7 +917,7 @@ class Gen:
         a = self.choice(arrs)
         n = self.defined[a][1]
         f = self.choice(self.allowed(["<builtin>len", "<builtin>norm_1"]))
-        lv = self.choice(LOOP_VARS)
+        lv = self.choice(self.LV)
         loop = ["assign", a, [V(lv)], normal(["sum", self.bcall(f, [V(tmp)]), V(lv)]), [[lv, C(0), C(n)]]]
         self.features.add("loop")
         self.features.add("utemp_in_loop")
@@ -942,7 +943,7 @@ class Gen:
         a = self.choice(arrs)
         b = self.choice([x for x in arrs if x != a])
         na, nb = self.defined[a][1], self.defined[b][1]
-        lv = self.choice(LOOP_VARS)
+        lv = self.choice(self.LV)
         self.loop_env[lv] = (0, na)
         base = strip_reads_of(self.real_expr(1), a)
         self.loop_env.clear()
